@@ -74,10 +74,8 @@ def stripWord (isPat : Nat → Bool) (chars : List Nat) (w : WordShape) : WordSh
 def Text.strip (E : Env) (ps : List CharClass) (t : Text) : Text :=
   { t with words := renumber ((t.words.map (stripWord (patMatches E ps) t.chars)).filter (fun w => decide (w.len > 0))) }
 
-/-- `TextOwn::lower`: if any character is upper-case, map every character to the first character of
-    its `to_lowercase()` -/
-def Text.lower (E : Env) (t : Text) : Text :=
-  if t.chars.any E.U.isUppercase then { t with chars := t.chars.map E.U.lower1 } else t
+/-- `TextOwn::lower` (after the D5 fix): map every character to the first character of its `to_lowercase()` -/
+def Text.lower (E : Env) (t : Text) : Text := { t with chars := t.chars.map E.U.lower1 }
 
 /-- `TextOwn::set_pos` -/
 def Text.setPos (E : Env) (t : Text) : Text :=
